@@ -265,7 +265,7 @@ NDARRAY = ATypeRef('ndarray')
 NOT_GIVEN = object()
 
 _BUILTINS = {'len', 'type', 'issubclass', 'isinstance', 'print', 'bool', 'int', 'float', 'abs', 'min', 'max',
-             'range', 'hasattr', 'getattr', 'super', 'vars', 'str', 'tuple', 'list', 'sum', 'enumerate', 'zip', 'Exception', 'id', 'dict', 'set', 'slice',
+             'range', 'hasattr', 'getattr', 'super', 'vars', 'str', 'tuple', 'list', 'sum', 'enumerate', 'zip', 'Exception', 'id', 'dict', 'set', 'slice', 'all', 'any', 'setattr',
              'TypeError', 'ValueError', 'AttributeError', 'NotImplementedError', 'IndexError'}
 _EXC_NAMES = {'Exception', 'TypeError', 'ValueError', 'AttributeError', 'NotImplementedError', 'IndexError',
               'KeyError', 'ZeroDivisionError', 'RuntimeError'}
@@ -944,6 +944,8 @@ class Interp:
             return Builtin('csr_array')     # the triplet form builds the same matrix (duplicates summed) in every sparse format
         if last in ('csr_array', 'spsolve', 'use_solver', 'warn', 'deepcopy', 'overload', 'Callable'):
             return Builtin(last)
+        if dotted in ('copy.copy',):
+            return Builtin('copy')
         return Builtin('ext:' + dotted)
 
     def ev_Attribute(self, fr, e):
